@@ -885,6 +885,15 @@ func (e *EngineB) doExternal(call ssa.CallInstruction, res *ssa.Call) {
 			}
 		}
 	}
+	if res != nil && name == "(*sync.Pool).Get" {
+		// what a pool hands out belongs to the pool: it is package-level memory that the next Get may hand to
+		// someone else.  Everything loaded from it is that same memory (a collapsed object that contains itself).
+		o := e.obj("Pooled:"+e.p.InstrPos(call), oGlobal, res.Type(), call)
+		o.collapsed = true
+		e.set(res, Loc{o, ""})
+		e.store(Loc{o, ""}, locset{Loc{o, ""}: true})
+		return
+	}
 	if res != nil && mayPoint(res.Type()) {
 		// result: Unknown, plus whatever the arguments reference (conservative
 		// for wrappers like bytes.NewBuffer / append-like helpers)
